@@ -53,7 +53,28 @@ func coreFamilies() []family {
 }
 
 func c01Scenarios(tier string) []*hist.Scenario {
-	return append(c01FirstPublication(), c01ScenariosBase(tier)...)
+	return append(append(c01FirstPublication(), c01ScenariosBase(tier)...), c01Multi(tier)...)
+}
+
+// multiOps: kinds whose one change carries two operations (one Update, two
+// calls): the pairs an editor makes atomically.
+var multiOps = []string{"m.o1+a", "m.o1+o1", "m.o1+del1", "m.o1+o2", "m.t+c", "m.t+t", "m.c+c", "m.a+a", "m.a+del", "m.obj+in"}
+
+func c01Multi(tier string) []*hist.Scenario {
+	var out []*hist.Scenario
+	big := hist.Config{Threshold: hist.Big, Interval: hist.Big}
+	init := []string{"init.o", "init.a", "init.t", "init.c"}
+	als := pairs(multiOps)
+	for _, al := range als {
+		if tier == "quick" && len(al) == 2 {
+			continue
+		}
+		out = append(out, &hist.Scenario{
+			Name: fmt.Sprintf("c01/multi/%s/N2K2Y3", strings.Join(al, "+")),
+			N:    2, Init: init, Alphabet: al, K: 2, Y: 3, Cfg: big,
+		})
+	}
+	return out
 }
 
 func c01FirstPublication() []*hist.Scenario {
